@@ -7,6 +7,7 @@ import (
 	"bufio"
 	"fmt"
 	"os"
+	"runtime"
 	"strconv"
 	"strings"
 	"syscall"
@@ -76,6 +77,29 @@ func DenyPrctlSyscall(setNNP bool) error {
 func Gettid() int {
 	r, _, _ := syscall.RawSyscall(syscall.SYS_GETTID, 0, 0, 0)
 	return int(r)
+}
+
+// MigrateAway tries to make the calling goroutine resume on another OS thread: a helper goroutine wires itself to the
+// current thread and keeps it. It has no effect on a goroutine that is itself wired to its thread (runtime.LockOSThread).
+func MigrateAway() bool {
+	old := Gettid()
+	for try := 0; try < 20; try++ {
+		got := make(chan bool)
+		go func() {
+			runtime.LockOSThread()
+			ok := Gettid() == old
+			got <- ok
+			if ok {
+				select {}
+			}
+			runtime.UnlockOSThread()
+		}()
+		<-got
+		if Gettid() != old {
+			return true
+		}
+	}
+	return false
 }
 
 type Status struct {
